@@ -16,7 +16,7 @@ MODEL_FUNCTIONS = ["encode (digit -> arc through argsort)", "decode (arc -> digi
 RULE = ("digit map: ALL 24 permutations x ALL 11 live-arc patterns with two or more arcs x every digit, normal mode, and the "
         "patterns of size 2 and 4 in fast mode, encode then decode on a one-vertex graph (exhaustive in both tiers); table: "
         "observed lengths 1..6 x 50 seeds (thorough 500): shape, every row a permutation of 0..3, two calls with the same "
-        "seed give the same table, doctest table for seed 2021.  non-trivial = pattern with >= 2 arcs / k >= 2")
+        "seed -- passed once as a built-in int and once as a NumPy integer scalar (int64 / uint32 / uint64) -- give the same table, doctest table for seed 2021.  non-trivial = pattern with >= 2 arcs / k >= 2")
 TRUSTED_BASE = [
     "Coq 8.16.1 kernel (coqc); vm_compute for the exhaustive 24 x 15 sweep (lifted with forallb_forall); no native_compute",
     "Print Assumptions of every C18 theorem: Closed under the global context",
@@ -85,11 +85,15 @@ def build(stream, p):
     k, seed = p["k"], p["seed"]
 
     def run():
-        first = dsw.create_random_shuffles(observed_length=k, random_seed=seed)
+        # the same seed as a built-in int and as NumPy integer scalars (what numpy.arange / a NumPy draw hands over): one table
+        forms = [seed, np.int64(seed), np.uint32(seed), np.uint64(seed)] if seed < 2 ** 32 else [seed]
+        s1 = forms[(k + seed) % len(forms)]
+        s2 = forms[(k + seed + 1) % len(forms)]
+        first = dsw.create_random_shuffles(observed_length=k, random_seed=s1)
         a = first.copy()
         first[...] = 0                 # the returned table belongs to the caller: overwriting it must not affect later calls
         np.random.random(size=3)       # disturb the global random state between the two calls
-        b = dsw.create_random_shuffles(observed_length=k, random_seed=seed)
+        b = dsw.create_random_shuffles(observed_length=k, random_seed=s2)
         return a, b
 
     def oracle(ans, raw):
